@@ -23,6 +23,7 @@ import (
 	"fmt"
 	"go/ast"
 	"go/constant"
+	"go/printer"
 	"go/token"
 	"go/types"
 	"sort"
@@ -185,6 +186,9 @@ func (t *trTranslator) leanType(from *trUnit, ty types.Type, pos token.Pos) stri
 	case *types.Slice:
 		return "(List " + t.leanType(from, x.Elem(), pos) + ")"
 	case *types.Map:
+		if _, isPtr := x.Key().Underlying().(*types.Pointer); isPtr && !trIsInterned(x.Key()) {
+			trFail(pos, "map keyed by the pointer type %s is outside the subset", x.Key())
+		}
 		return "(AMap " + t.leanType(from, x.Key(), pos) + " " + t.leanType(from, x.Elem(), pos) + ")"
 	case *types.Pointer:
 		// a pointer to a struct is handled as the struct VALUE; the translator rejects the uses in which the two differ
@@ -213,6 +217,63 @@ func (t *trTranslator) leanType(from *trUnit, ty types.Type, pos token.Pos) stri
 	}
 	trFail(pos, "type %s is outside the subset", ty)
 	return ""
+}
+
+// trInterned: struct types whose pointers are interned by a registry (one pointer per name, never copied): a pointer to them
+// is handled as the struct VALUE also where pointers are compared or used as map keys.
+var trInterned = map[string]bool{
+	trKnutPath + "lib/model/commodity.Commodity": true,
+	trKnutPath + "lib/model/account.Account":     true,
+}
+
+func trIsInterned(ty types.Type) bool {
+	p, ok := ty.Underlying().(*types.Pointer)
+	if !ok {
+		return false
+	}
+	n, ok := p.Elem().(*types.Named)
+	return ok && n.Obj().Pkg() != nil && trInterned[n.Obj().Pkg().Path()+"."+n.Obj().Name()]
+}
+
+// trPinned: functions of /repo that the translator does not translate but gives a fixed meaning in the prelude (generic helpers).
+// The meaning is valid for the pinned source text only: if the text in /repo differs, every function using it is rejected.
+type trPin struct {
+	src  string // go/printer text of the declaration, whitespace-normalised
+	lean string // prelude function for plain calls ("" = only usable in the idiom the translator knows)
+}
+
+var trPinned = map[string]trPin{
+	trKnutPath + "lib/common/compare.Ordered": {"func Ordered[T constraints.Ordered](t1, t2 T) Order { return cmp.Compare(t1, t2) }", "cmpOrdered"},
+	trKnutPath + "lib/common/dict.GetDefault": {"func GetDefault[K comparable, V any](m map[K]V, k K, c func() V) V { v, ok := m[k] if !ok { v = c() m[k] = v } return v }", ""},
+}
+
+func (t *trTranslator) checkPinned(f *types.Func, pos token.Pos) {
+	full := f.Origin().FullName()
+	pin := trPinned[full]
+	p := t.l.pkgs[f.Pkg().Path()]
+	if p == nil {
+		trFail(pos, "%s: package not loaded", full)
+	}
+	for _, file := range p.files {
+		for _, d := range file.Decls {
+			fd, ok := d.(*ast.FuncDecl)
+			if !ok || p.info.Defs[fd.Name] != f.Origin() {
+				continue
+			}
+			var b strings.Builder
+			cp := *fd
+			cp.Doc = nil
+			if err := printer.Fprint(&b, t.l.fset, &cp); err != nil {
+				trFail(pos, "%s: %v", full, err)
+			}
+			got := strings.Join(strings.Fields(b.String()), " ")
+			if got != pin.src {
+				trFail(pos, "the source of %s changed (the prelude gives a meaning to `%s` only): %s", full, pin.src, got)
+			}
+			return
+		}
+	}
+	trFail(pos, "%s: declaration not found", full)
 }
 
 // trOpaque: Go types that the translated code only passes around and compares; each is one fixed Lean type.
